@@ -84,11 +84,13 @@ def random_geometry_recipe(rng, kind):
         r["n"] = rng.choice([1, 3, 17])
         r["colors"] = rng.random() < 0.5
     elif kind in ("path2d", "path3d"):
-        r["shape"] = rng.choice(["square", "nested", "polyline_open", "circle", "rounded", "dshape", "closed_circle", "reversed_arcs", "lens"]) if kind == "path2d" else rng.choice(["square", "polyline_open"])
+        r["shape"] = rng.choice(["square", "nested", "polyline_open", "circle", "rounded", "dshape", "closed_circle", "reversed_arcs", "lens", "square_unmerged", "triangle_unmerged"]) if kind == "path2d" else rng.choice(["square", "polyline_open"])
     elif kind == "voxel":
         r["n"] = rng.choice([2, 3, 5, 9])
         r["fill"] = rng.choice([0.2, 0.5, 0.9, 0.01, 0.995])
-        r["pitch"] = rng.choice([1.0, 0.25])
+        r["pitch"] = rng.choice([1.0, 0.25, 0.1, 0.0123456789, 1.0 / 3.0, 7.7])
+        # grid origin: simple values, or coordinates that need all the digits of a double
+        r["origin"] = [0.5, -1.0, 2.0] if rng.random() < 0.4 else [round(rng.uniform(-2000.0, 2000.0), rng.choice([3, 6, 9, 12])) for _ in range(3)]
     return r
 
 
@@ -175,6 +177,11 @@ def build_geometry(r, fmt=None):
             return trimesh.path.Path2D(entities=[Line([0, 1, 2, 3, 0])], vertices=sq, process=False)
         if shape == "polyline_open":
             return trimesh.path.Path2D(entities=[Line([0, 1, 2, 3])], vertices=sq, process=False)
+        if shape == "square_unmerged":
+            # closed by coordinates only: the last vertex is its own copy of the first (what process=False loading gives)
+            return trimesh.path.Path2D(entities=[Line([0, 1, 2, 3, 4])], vertices=np.vstack([sq, sq[:1]]), process=False)
+        if shape == "triangle_unmerged":
+            return trimesh.path.Path2D(entities=[Line([0, 1, 2, 4]), Line([5, 6])], vertices=np.vstack([sq, sq[:1], sq[2:3] + [3.0, 0.0], sq[3:4] + [3.0, 0.5]]), process=False)
         if shape == "nested":
             inner = np.array([[0.5, 0.4], [1.4, 0.4], [1.4, 1.0], [0.5, 1.0]]) + rs.uniform(-0.03, 0.03, (4, 2))
             return trimesh.path.Path2D(entities=[Line([0, 1]), Line([1, 2, 3]), Line([3, 0]), Line([4, 5, 6, 7, 4])], vertices=np.vstack([sq, inner]), process=False)
@@ -206,7 +213,7 @@ def build_geometry(r, fmt=None):
         dense[0, 0, 0] = True
         T = np.eye(4) * r["pitch"]
         T[3, 3] = 1.0
-        T[:3, 3] = [0.5, -1.0, 2.0]
+        T[:3, 3] = r.get("origin", [0.5, -1.0, 2.0])
         return trimesh.voxel.VoxelGrid(dense, transform=T)
     raise ValueError(kind)
 
